@@ -227,6 +227,9 @@ def from_memo(term: P, memos) -> bool:
     """term is (an element / field of) a value obtained from a memoising getter or memo attribute."""
     k = term.key()
     a = term.as_atom()
+    if a and a[0] == "ite":
+        # one of two containers (`d = memo if fast_path else {fresh}`): a store into it is a store into the memo on that branch
+        return any(from_memo(x, memos) or _direct_memo(x, memos) for x in a[2:4])
     while a and a[0] in ("attr", "sub", "obj"):
         nxt = a[1] if a[0] != "obj" else a[3]
         if a[0] == "obj":
@@ -234,6 +237,8 @@ def from_memo(term: P, memos) -> bool:
             return _direct_memo(nxt, memos)
         a = nxt.as_atom()
         term = nxt
+        if a and a[0] == "ite":
+            return from_memo(nxt, memos)
     if a and a[0] == "call":
         cn = call_name(a)
         if cn and cn.startswith(".") and cn[1:] in MEMO_GETTERS and a[1].as_atom()[1].key() == "self":
